@@ -106,12 +106,17 @@ type failNth struct {
 	inner http.RoundTripper
 	n     *atomic.Int64
 	at    int64
+	blank bool // instead of failing, answer 200 with no body at all
 }
 
 func (f *failNth) RoundTrip(req *http.Request) (*http.Response, error) {
 	if f.n.Add(1) == f.at {
 		if req.Body != nil {
 			req.Body.Close()
+		}
+		if f.blank {
+			return &http.Response{StatusCode: 200, Status: "200 OK", Proto: "HTTP/1.1", ProtoMajor: 1, ProtoMinor: 1,
+				Header: http.Header{"Content-Type": {"application/json"}, "Content-Length": {"0"}}, Body: http.NoBody, ContentLength: 0, Request: req}, nil
 		}
 		return nil, errors.New("injected transport failure")
 	}
@@ -322,6 +327,10 @@ func runCase(run *evid.Run, idx int) {
 	case 0:
 		if hasHTTP && c.Kind != "Referrers" {
 			c.Fault, c.FaultAt = "page-request-fails", 1+rng.IntN(3)
+			if rng.IntN(2) == 0 {
+				// the page request is answered, but with nothing: a success status and an empty body
+				c.Fault = "page-response-blank"
+			}
 		}
 	case 1:
 		if c.Kind != "Referrers" {
@@ -350,9 +359,9 @@ func runCase(run *evid.Run, idx int) {
 		case "http":
 			o := stack.HTTPOpts{PageSize: c.PageSize[hi], Loopback: idx%17 == 0,
 				Server: &ociserver.Options{MaxListPageSize: c.MaxPage[hi], OmitLinkHeaderFromResponses: c.OmitLink[hi]}}
-			if c.Fault == "page-request-fails" && firstHTTP {
+			if (c.Fault == "page-request-fails" || c.Fault == "page-response-blank") && firstHTTP {
 				o.Wrap = func(rt http.RoundTripper) http.RoundTripper {
-					return &failNth{inner: rt, n: &reqCount, at: int64(c.FaultAt)}
+					return &failNth{inner: rt, n: &reqCount, at: int64(c.FaultAt), blank: c.Fault == "page-response-blank"}
 				}
 			}
 			firstHTTP = false
